@@ -188,7 +188,7 @@ def check_note_failure(rep: Report, prog: Program) -> None:
             for n in prog._own_nodes(fn.node):
                 if isinstance(n, ast.Attribute) and n.attr in ("_failures", "_class_failures"):
                     rep.instance("R6.2", f"container-use|{fn.qual}|{n.attr}")
-                    if fn.cls is ci and (fn.name in allowed or owned_by(prog, fn, owners)):
+                    if fn.cls is not None and (fn.cls is ci or fn.cls in prog.mro(ci)) and (fn.name in allowed or owned_by(prog, fn, owners)):
                         rep.ok("R6.2")
                     else:
                         rep.fail("R6.2", f"container-use|{fn.qual}|{n.attr}", f"{fn.qual} touches `{n.attr}`; the failure windows are owned by _note_failure/_clear_failures", where=fn.where(n), function=fn.qual)
